@@ -88,6 +88,16 @@ def generate(ctx):
             nf, labels, label_kind = fo.make_frame(rng, inp, label_kind=forced)
             rows = fo.rows_rm(inp["ca"])
             repeated = len(set(labels)) != len(labels)
+            # the second nest 'other': its field is 'q', or - every third reduce case - named like the FIRST field of 'n' (one field
+            # name in two nests, both asked for in one call: each request must get the values of ITS nest)
+            OQF = "q"
+            if kind.startswith("reduce") and i % 3 == 1 and names[0] not in ("x", "y", "w", "n", "other"):
+                OQF = names[0]
+                o_arr = nf["other"].array.chunked_array
+                nf["other"] = pd.Series(type(nf["other"].array)(pa.chunked_array(
+                    [pa.StructArray.from_arrays(c_.flatten(), names=[OQF], mask=c_.is_null()) for c_ in o_arr.chunks],
+                    type=pa.struct([pa.field(OQF, o_arr.type.field(0).type)]))), index=nf.index, name="other")
+            OQ = f"other.{OQF}"
             before = fo.snapshot(nf)
             if kind.startswith("reduce"):
                 # now and then a base column named like a field of the nest (the same name in two layers, asked for in one call)
@@ -97,13 +107,13 @@ def generate(ctx):
                     before = fo.snapshot(nf)
                 sel = []
                 for _ in range(rng.randint(1, 5)):
-                    sel.append(rng.choice(["x", "y", f"n.{rng.choice(names)}", f"n.{rng.choice(names)}", "other.q"] + ([dup, dup] if dup else [])))
+                    sel.append(rng.choice(["x", "y", f"n.{rng.choice(names)}", f"n.{rng.choice(names)}", OQ, OQ] + ([dup, dup] if dup else [])))
                 extra = [rng.choice([7, 2.5, "not_a_column", None]) for _ in range(rng.randint(0, 2))]
                 if extra and isinstance(extra[0], str) and extra[0] in nf.columns:
                     extra = []
                 if extra and rng.random() < 0.4:
                     # after the first non-column argument everything is an extra argument, also a string that spells a column
-                    extra += [rng.choice(["x", f"n.{names[0]}", "other.q"])]
+                    extra += [rng.choice(["x", f"n.{names[0]}", OQ])]
                 kwargs = {k: rng.choice([1, "z"]) for k in rng.sample(["alpha", "beta"], rng.randint(0, 2))}
                 shape = rng.choice(["scalar", "tuple", "dict", "dotted"]) if kind == "reduce" else "dotted"
                 calls = []
@@ -162,7 +172,7 @@ def generate(ctx):
                     for c, v in zip(sel, a[:ncol]):
                         if c in ("x", "y") or c == dup:
                             rowt.append("(RBase (%s))" % cq_val(tok(v if not isinstance(v, np.generic) else v.item())))
-                        elif c == "other.q":
+                        elif c == OQ:
                             rowt.append("(RNested %s)" % cq_vals(arr_tokens(v) if (j < len(otherv) and otherv[j] is not None) else []))
                         else:
                             rowt.append("(RNested %s)" % cq_vals(arr_tokens(v) if (j < len(rows) and rows[j] is not None) else []))
@@ -177,7 +187,7 @@ def generate(ctx):
                         cols_t.append("(CBaseCol %s)" % cq_vals(list(range(len(rows)))))
                     elif c == "y":
                         cols_t.append("(CBaseCol %s)" % cq_vals(list(nf["y"])))
-                    elif c == "other.q":
+                    elif c == OQ:
                         cols_t.append("(CBaseCol %s)" % cq_list("VNull" for _ in rows))     # placeholder, compared python-side
                     else:
                         cols_t.append(f"(CNestField {names.index(c.split('.')[1])})")
@@ -187,8 +197,8 @@ def generate(ctx):
                 for j, (a, kw) in enumerate(calls):
                     parts = []
                     for c, v in zip(sel, a[:len(sel)]):
-                        if c == "other.q":
-                            want = [] if (j >= len(otherv) or otherv[j] is None) else list(otherv[j]["q"])
+                        if c == OQ:
+                            want = [] if (j >= len(otherv) or otherv[j] is None) else list(otherv[j][OQF])
                             got = arr_tokens(v) if (j < len(otherv) and otherv[j] is not None) else []
                             py_other_ok = py_other_ok and [None if (isinstance(g, float) and g != g) else g for g in got] == want
                             parts.append("(RBase VNull)")
@@ -215,7 +225,7 @@ def generate(ctx):
 
                 def cq_parg(j, a_):
                     return f"(AStr {cq_s(a_)})" if isinstance(a_, str) else f"(AOther {j})"
-                known_strs = sorted({a_ for a_ in all_args if isinstance(a_, str) and (a_ in ("x", "y", "w", "other.q") or a_ == dup or (a_.startswith("n.") and a_[2:] in names))})
+                known_strs = sorted({a_ for a_ in all_args if isinstance(a_, str) and (a_ in ("x", "y", "w", OQ) or a_ == dup or (a_.startswith("n.") and a_[2:] in names))})
                 args_t = cq_list(cq_parg(j, a_) for j, a_ in enumerate(all_args))
                 if calls:
                     a0 = calls[0][0]
